@@ -56,7 +56,7 @@ func VerifHarness_C17_GenerateConverters() {
 	failed := parseFails || configFails || genFails
 	verifAssert("error-iff-a-stage-failed", (err != nil) == failed)
 	mk, wr := verifEffectCount("os.MkdirAll"), verifEffectCount("os.WriteFile")
-	verifAssert("no-other-file-system-call", verifEffectCount("os.Remove")+verifEffectCount("os.RemoveAll")+verifEffectCount("os.Rename")+verifEffectCount("os.Create")+verifEffectCount("os.OpenFile")+verifEffectCount("os.Mkdir")+verifEffectCount("os.Chmod") == 0)
+	verifAssert("no-other-file-system-call", verifEffectCount("os.Remove")+verifEffectCount("os.RemoveAll")+verifEffectCount("os.Rename")+verifEffectCount("os.Create")+verifEffectCount("os.OpenFile")+verifEffectCount("os.Mkdir")+verifEffectCount("os.Chmod")+verifEffectCount("(*os.File).Write")+verifEffectCount("(*os.File).WriteString")+verifEffectCount("os.Truncate") == 0)
 	if failed {
 		verifReach("failed")
 		verifAssert("failing-run-creates-no-directory", mk == 0)
